@@ -40,7 +40,7 @@ func c03Bound(kind string) time.Duration {
 	switch kind {
 	case "hang":
 		return 3 * time.Second // backend_read
-	case "stall", "stall-up":
+	case "stall", "stall-up", "stall-upg":
 		return 7 * time.Second // server write timeout
 	case "slow":
 		return 4 * time.Second // the 3 s drip itself
@@ -116,6 +116,11 @@ func c03Run(e *vh.Env, c c03Case, o *vh.Out) {
 		}
 		if r.Status == 0 && r.Err == "" {
 			o.Viol("C03|no-outcome|"+kind, fmt.Sprintf("%s: the %s request had no outcome", ctx, kind), r)
+			return false
+		}
+		if (kind == "short" || kind == "short-chunked" || kind == "reset") && r.Status == 200 && r.Complete && r.Err == "" {
+			// the backend died in the middle of the body: that must not look like a complete response
+			o.Viol("C03|truncation-hidden|"+kind, fmt.Sprintf("%s: the backend cut the body short (%s) but the client received a response that looks complete", ctx, kind), r)
 			return false
 		}
 		return true
@@ -215,7 +220,7 @@ func init() {
 			// features are on) alone, before and after each fault, and followed by a pause longer than every window
 			seqs = append(seqs, []string{"storm"}, []string{"storm", "storm"})
 			// a backend that goes silent in the middle of a body
-			seqs = append(seqs, []string{"stall"}, []string{"stall", "stall"}, []string{"stall", "ok"}, []string{"stall-up"}, []string{"stall-up", "stall"})
+			seqs = append(seqs, []string{"stall"}, []string{"stall", "stall"}, []string{"stall", "ok"}, []string{"stall-up"}, []string{"stall-up", "stall"}, []string{"stall-upg"}, []string{"ok", "stall-upg"}, []string{"short-chunked"}, []string{"short-chunked", "ok"})
 			for _, k := range faultKinds {
 				seqs = append(seqs, []string{"storm", k}, []string{k, "storm"}, []string{"storm", "w", k})
 			}
